@@ -107,6 +107,9 @@ func ndSites(c *Check, fn *ssa.Function) []ndSite {
 	x := c.P.Ex(fn)
 	for _, b := range fn.Blocks {
 		for _, ins := range b.Instrs {
+			if c.P.IsClone(ins) {
+				continue
+			}
 			switch v := ins.(type) {
 			case *ssa.Range:
 				if _, isMap := v.X.Type().Underlying().(*types.Map); isMap {
@@ -271,7 +274,7 @@ func mapRangeOrderInsensitive(c *Check, fn *ssa.Function, rng *ssa.Range) (bool,
 										continue
 									}
 									if _, isRet := rb.Instrs[len(rb.Instrs)-1].(*ssa.Return); isRet && fn.Recover != rb {
-										if !(b == rb || b.Dominates(rb)) && reachableFromLoop(blocks, rb) {
+										if !(b == rb || c.P.Dominates(b, rb)) && reachableFromLoop(blocks, rb) {
 											all = false
 										}
 									}
